@@ -6,6 +6,8 @@ import (
 	"sort"
 	"strings"
 	"sync"
+
+	"github.com/rivo/uniseg"
 )
 
 // ---- measured coverage ---------------------------------------------------
@@ -54,6 +56,13 @@ func (c *Cov) dynDraw(sc *Scn, op Op, n int, sel bool, kids [][]int, cursor, bef
 			break
 		}
 	}
+	span := 0
+	for _, k := range kids {
+		span += k[2] + sc.Gap
+	}
+	if span > 65535 {
+		c.counts["dyn_draws_whose_items_span_more_than_65535_rows"]++
+	}
 	for _, k := range kids {
 		if k[0] == cursor && k[1]+k[2] > op.H && k[1] < op.H {
 			c.counts["dyn_draws_selected_item_cut_at_bottom"]++
@@ -89,6 +98,30 @@ func (c *Cov) pgDraw(sc *Scn, op Op, off int) {
 	}
 	if t != "" && !strings.HasSuffix(t, "\n") {
 		c.counts["pg_draws_unterminated_last_line"]++
+	}
+	if op.W > 0 {
+		// lines that fill the window width exactly (once or several times over) and have a terminator
+		lines := strings.Split(t, "\n")
+		for i, ln := range lines[:len(lines)-1] {
+			crlf := strings.HasSuffix(ln, "\r")
+			lw := uniseg.StringWidth(strings.TrimSuffix(ln, "\r"))
+			if lw == 0 || lw%op.W != 0 {
+				continue
+			}
+			c.counts["pg_draws_terminated_line_of_exactly_k_window_widths"]++
+			if lw > op.W {
+				c.counts["pg_draws_terminated_line_of_exactly_k_window_widths_k_above_1"]++
+			}
+			if crlf {
+				c.counts["pg_draws_terminated_line_of_exactly_k_window_widths_crlf"]++
+			}
+			if strings.ContainsAny(ln, "世界") && (strings.HasSuffix(strings.TrimSuffix(ln, "\r"), "世") || strings.HasSuffix(strings.TrimSuffix(ln, "\r"), "界")) {
+				c.counts["pg_draws_terminated_line_wide_character_ends_at_the_edge"]++
+			}
+			if i+1 < len(lines)-1 || lines[len(lines)-1] != "" {
+				c.counts["pg_draws_terminated_line_of_exactly_k_window_widths_then_more_text"]++
+			}
+		}
 	}
 }
 
@@ -214,6 +247,24 @@ func genDyn(rng *rand.Rand, thorough bool) []*Scn {
 					full = append(full, Op{K: "draw", W: 5, H: H})
 					out = append(out, &Scn{Kind: "dyn-big", Widget: "dyn", Hs: hs, Gap: gap, Cursor: gap == 1, Ops: full})
 				})
+			}
+		}
+	}
+	// very tall items ("any item heights": a height is a 16-bit count of rows): the rows above the viewport add up to
+	// more than 65535 and a scroll far beyond the first item (as many wheel events before one frame) brings the list
+	// back to its start. The gutter cursor is only drawn beside a short item (it allocates width x height cells).
+	for _, hs := range [][]int{{30000, 30000, 5536, 1, 1, 1, 1, 1}, {40000, 40000, 1, 1, 1}, {65535, 1, 2, 1, 1, 1}, {21846, 21846, 21846, 1, 1, 1, 1},
+		{32768, 1, 32767, 2, 2, 2}} {
+		for gap := 0; gap <= 1; gap++ {
+			n, H := len(hs), 4
+			dr := Op{K: "draw", W: 5, H: H}
+			for v, ops := range [][]Op{
+				{{K: "setcursor", A: n - 1}, dr, {K: "pending", A: -100000}, dr, dr, {K: "next"}, dr},
+				{{K: "setcursor", A: n - 1}, dr, {K: "pending", A: -65537}, dr, {K: "wheeldown"}, dr, {K: "wheelup"}, dr},
+				{{K: "setcursor", A: n - 2}, dr, {K: "wheelup"}, dr, {K: "pending", A: -70000}, dr, {K: "setcursor", A: n - 1}, dr, {K: "pending", A: -200000}, dr, dr},
+				{{K: "pending", A: 70000}, dr, {K: "pending", A: 70000}, dr, {K: "pending", A: -140000}, dr, dr},
+			} {
+				out = append(out, &Scn{Kind: "dyn-tall", Widget: "dyn", Hs: hs, Gap: gap, Cursor: v == 0 && gap == 1, Ops: ops})
 			}
 		}
 	}
@@ -470,6 +521,77 @@ func genPg(rng *rand.Rand, thorough bool) []*Scn {
 	return out
 }
 
+// genPgEdge: lines around the window edge. For every width: lines of narrow characters one short of, exactly and one
+// over one and two window widths; a wide character that ends exactly at the edge, one column before it (followed by
+// nothing, by a narrow character that then fills the row, by a wide one that has to wrap) and one that starts in the last
+// column; each with no terminator, "\n" and "\r\n", followed by nothing, more text, an empty line, another full line.
+func genPgEdge(thorough bool) []*Scn {
+	var out []*Scn
+	narrow := func(n int) string {
+		if n < 0 {
+			n = 0
+		}
+		return "abcdefghijklmnop"[:n]
+	}
+	widths := []int{2, 3, 4}
+	if thorough {
+		widths = []int{1, 2, 3, 4, 5}
+	}
+	k := 0
+	for _, w := range widths {
+		var bodies []string
+		for _, n := range []int{w - 1, w, w + 1, 2*w - 1, 2 * w, 2*w + 1} {
+			if n >= 1 {
+				bodies = append(bodies, narrow(n))
+			}
+		}
+		if w >= 2 {
+			bodies = append(bodies,
+				narrow(w-2)+"世",           // ends exactly at the edge
+				narrow(w)+narrow(w-2)+"世", // two rows, the second ends exactly at the edge
+				narrow(w-1)+"世",           // starts in the last column: has to wrap
+				"世界")                      // w = 2: every row full; w = 4: one full row
+		}
+		if w >= 3 {
+			bodies = append(bodies,
+				narrow(w-3)+"世",  // ends one column before the edge
+				narrow(w-3)+"世x", // ... and a narrow character fills the row
+				narrow(w-3)+"世界") // ... and a wide one has to wrap
+		}
+		for _, body := range bodies {
+			for _, term := range []string{"", "\n", "\r\n"} {
+				followers := []string{""}
+				if term != "" {
+					followers = []string{"", "z", term, term + "z", narrow(w) + term}
+				}
+				for _, fol := range followers {
+					nv := 1
+					if thorough {
+						nv = 3
+					}
+					for v := 0; v < nv; v++ {
+						k++
+						w2 := w%4 + 1
+						if w2 < 2 {
+							w2 = 2 // wide characters
+						}
+						segs := []string{body + term + fol}
+						switch k % 3 {
+						case 1: // the terminator opens the second segment
+							segs = []string{body, term + fol}
+						case 2: // ... or closes the first
+							segs = []string{body + term, fol}
+						}
+						n := len([]rune(body + term + fol))
+						out = append(out, &Scn{Kind: "pg-edge", Widget: "pg", Cols: 6, Rows: n + 3, Text: segs, Ops: pgOps(w, w2, (k/3+v)%3)})
+					}
+				}
+			}
+		}
+	}
+	return out
+}
+
 // ---- widgets/scrollbar ------------------------------------------------------------------------
 
 func genSb(rng *rand.Rand, thorough bool) []*Scn {
@@ -548,6 +670,10 @@ func Fixed() []*Scn {
 		// pager: no terminator, only terminators, wide character at the edge, exactly full lines
 		pg(3, "a"), pg(3, "one\ntwo"), pg(2, "\n"), pg(2, "\n\n"), pg(2, "a世"), pg(2, "世b世"), pg(3, "ab世c"),
 		pg(2, "ab\ncd"), pg(2, "ab\n\ncd\n"), pg(2, "ab", "cd\r\ne"), pg(4, ""),
+		// an exactly full line and its terminator (hunter h19-2): two lines that fit a 3x2 window; one line, scrolled
+		&Scn{Kind: "fixed", Widget: "pg", Cols: 6, Rows: 9, Text: []string{"abc\ndef"}, Ops: []Op{d(3, 2), {K: "down"}, d(3, 2), d(4, 2)}},
+		&Scn{Kind: "fixed", Widget: "pg", Cols: 6, Rows: 9, Text: []string{"abc\n"}, Ops: []Op{d(3, 1), {K: "down"}, d(3, 1), d(4, 1)}},
+		&Scn{Kind: "fixed", Widget: "pg", Cols: 6, Rows: 12, Text: []string{"abcdef\r\n", "a世\nz"}, Ops: []Op{d(3, 2), {K: "setoffset", A: 9}, d(3, 2), d(2, 2)}},
 	}
 }
 
@@ -557,6 +683,7 @@ func Generate(rng *rand.Rand, thorough bool) []*Scn {
 	out = append(out, Fixed()...)
 	out = append(out, genLst(rng, thorough)...)
 	out = append(out, genPg(rng, thorough)...)
+	out = append(out, genPgEdge(thorough)...)
 	out = append(out, genSb(rng, thorough)...)
 	out = append(out, genDyn(rng, thorough)...)
 	return out
